@@ -214,10 +214,43 @@ impl<'tcx> Cx<'tcx> {
                         if p.as_usize() < proms.len() {
                             let pb = &proms[p];
                             let mut inner = Vec::new();
+                            let mut agg: Option<J> = None;
                             for bb in pb.basic_blocks.iter() {
                                 for st in &bb.statements {
                                     if let StatementKind::Assign(b) = &st.kind {
                                         let (_, rv) = &**b;
+                                        if let Rvalue::Aggregate(k, os) = rv {
+                                            if let AggregateKind::Adt(adid, vidx, _, _, _) = &**k {
+                                                let adt = self.tcx.adt_def(*adid);
+                                                let v = adt.variant(*vidx);
+                                                let mut vals = Vec::new();
+                                                let mut allc = true;
+                                                for o in os.iter() {
+                                                    match o {
+                                                        Operand::Constant(c) => {
+                                                            let mut f2: Vec<(&'static str, J)> = vec![("ty", s(self.ty(c.const_.ty())))];
+                                                            let te = TypingEnv::post_analysis(self.tcx, body_did);
+                                                            if let Some(sc) = c.const_.try_eval_scalar_int(self.tcx, te) {
+                                                                f2.push(("int", s(format!("{}", sc.to_bits(sc.size())))));
+                                                            }
+                                                            f2.push(("val", s(self.const_val_str(&c.const_))));
+                                                            vals.push(J::Obj(f2));
+                                                        }
+                                                        _ => {
+                                                            allc = false;
+                                                        }
+                                                    }
+                                                }
+                                                if allc {
+                                                    agg = Some(J::Obj(vec![
+                                                        ("adt", s(self.pretty(*adid))),
+                                                        ("variant", s(v.name.to_string())),
+                                                        ("fields", J::Arr(v.fields.iter().map(|f| s(f.name.to_string())).collect())),
+                                                        ("vals", J::Arr(vals)),
+                                                    ]));
+                                                }
+                                            }
+                                        }
                                         let mut ops: Vec<&Operand<'tcx>> = Vec::new();
                                         match rv {
                                             Rvalue::Use(o, _) => ops.push(o),
@@ -241,6 +274,9 @@ impl<'tcx> Cx<'tcx> {
                                 }
                             }
                             fields.push(("promoted_of", J::Arr(inner)));
+                            if let Some(a) = agg {
+                                fields.push(("promoted_agg", a));
+                            }
                         }
                     }
                 }
@@ -254,7 +290,15 @@ impl<'tcx> Cx<'tcx> {
             let bits = sc.to_bits(size);
             fields.push(("int", s(format!("{}", bits))));
         }
-        fields.push(("val", s(self.const_val_str(c))));
+        let mut valstr = self.const_val_str(c);
+        if let Const::Unevaluated(uv, cty) = c {
+            if uv.promoted.is_some() {
+                if let Ok(v) = c.eval(self.tcx, typing_env, rustc_span::DUMMY_SP) {
+                    valstr = self.const_val_str(&Const::Val(v, *cty));
+                }
+            }
+        }
+        fields.push(("val", s(valstr)));
         // static references: `&STATIC` shows up as a pointer to the static's allocation
         if let Const::Val(ConstValue::Scalar(mir::interpret::Scalar::Ptr(ptr, _)), _) = c {
             let alloc_id = ptr.provenance.alloc_id();
